@@ -109,15 +109,14 @@ Proof.
   unfold wf_version in Hwf. cbn [v_pver v_svc v_ts v_you v_me v_nonce v_ua v_lastblock v_disable_relay] in Hwf.
   apply andb_prop in Hwf. destruct Hwf as [Hwf Hdr].
   apply andb_prop in Hwf. destruct Hwf as [Hwf Hlb].
-  apply andb_prop in Hwf. destruct Hwf as [Hwf Hua2].
   apply andb_prop in Hwf. destruct Hwf as [Hwf Hua1].
   apply andb_prop in Hwf. destruct Hwf as [Hwf Hnonce].
   apply andb_prop in Hwf. destruct Hwf as [Hwf Hme].
   apply andb_prop in Hwf. destruct Hwf as [Hwf Hyou].
   apply andb_prop in Hwf. destruct Hwf as [Hwf Hts].
   apply andb_prop in Hwf. destruct Hwf as [Hpv Hsvc].
-  apply fits_lt in Hsvc. apply fits_lt in Hnonce. apply leb_true in Hua1. apply leb_true in Hua2.
-  unfold len in Hua1, Hua2. unfold MaxUserAgentLen in Hua1.
+  apply fits_lt in Hsvc. apply fits_lt in Hnonce. apply leb_true in Hua1.
+  unfold len in Hua1.
   unfold dec_version, dec_version_head, enc_version.
   cbn [v_pver v_svc v_ts v_you v_me v_nonce v_ua v_lastblock v_disable_relay].
   rewrite <- !app_assoc.
@@ -131,8 +130,7 @@ Proof.
   rewrite read_le_enc by (rewrite pow8_8; exact Hnonce). cbn [bind].
   rewrite if_more_nonempty by (unfold enc_varstring; rewrite <- app_assoc; apply enc_varint_app_nonempty).
   unfold dec_user_agent.
-  rewrite dec_enc_varstring by (try exact Hua2; change (2 ^ 64) with 18446744073709551616; lia). cbn [bind].
-  unfold len, MaxUserAgentLen. destruct (N.ltb_spec 256 (N.of_nat (length ua))) as [Hbad|_]; [lia|].
+  rewrite dec_enc_varbytes by (try exact Hua1; unfold MaxUserAgentLen in Hua1; change (2 ^ 64) with 18446744073709551616; lia).
   cbn [bind].
   rewrite if_more_nonempty by apply le_enc_app_nonempty.
   unfold dec_int32.
